@@ -1,6 +1,7 @@
 import AcVerif.Cost
 import AcVerif.Fold
 import AcVerif.Engine.Overlap
+import AcVerif.CostOverlap
 import AcVerif.Proofs.LmBasic
 /-!
 # C19: bounded work per haystack byte (helpers)
@@ -579,39 +580,6 @@ theorem ovlLoop_at_le {σ : Type} (A : Aut σ α) (hay : List α) (s e : Nat)
     · rw [ovlLoop, dif_neg h]; exact Nat.le_max_left _ _
 
 /-! ## the overlapping loop with counters -/
-
-/-- `ovlLoop` over the ideal automaton with the two counters of `findCost` (same conventions:
-`g` is the byte map, `A` is `ideal …` or `(ideal …).comap g`) -/
-def ovlCost (k : MatchKind) (Q : PatSet α) (A : Aut (St α) α) (g : α → α) (hay : List α)
-    (s e : Nat) (he : e ≤ hay.length) (pre : Option (Prefilter α)) (anch : Bool)
-    (sid : St α) (at_ : Nat) (cost : Cost) : OState (St α) × Cost :=
-  if h : at_ < e then
-    let c := hay[at_]'(Nat.lt_of_lt_of_le h he)
-    let cost := { transitions := cost.transitions + 1,
-                  fails := cost.fails + Ideal.hops k Q anch sid (g c) }
-    let sid := A.next anch sid c
-    if A.isSpecial sid then
-      if A.isDead sid then
-        ({ mat := Option.none, id := some sid, at_ := at_, nextIdx := Option.none }, cost)
-      else if A.isMatch sid then
-        let m := getMatch A sid 0 (at_ + 1)
-        if !(anch && decide (m.start > s)) then
-          ({ mat := some m, id := some sid, at_ := at_, nextIdx := some 1 }, cost)
-        else ovlCost k Q A g hay s e he pre anch sid (at_ + 1) cost
-      else
-        match pre with
-        | some p =>
-          match (p hay at_ e).intoOption with
-          | Option.none =>
-            ({ mat := Option.none, id := some sid, at_ := at_, nextIdx := Option.none }, cost)
-          | some i =>
-            if i > at_ then ovlCost k Q A g hay s e he pre anch sid i cost
-            else ovlCost k Q A g hay s e he pre anch sid (at_ + 1) cost
-        | Option.none => ovlCost k Q A g hay s e he pre anch sid (at_ + 1) cost
-    else ovlCost k Q A g hay s e he pre anch sid (at_ + 1) cost
-  else ({ mat := Option.none, id := some sid, at_ := at_, nextIdx := Option.none }, cost)
-termination_by e - at_
-decreasing_by all_goals omega
 
 /-- the counters are ghost state -/
 theorem ovlCost_fst (k : MatchKind) (Q : PatSet α) (A : Aut (St α) α) (g : α → α)
